@@ -200,6 +200,110 @@ def make_fn_catalogue(configs):
     return fn
 
 
+# ------------------------------------------------------------ mutation histories
+MUTS = ["attr-pop", "attr-clear", "attr-del", "attr-set", "attr-update", "add_class", "remove_last_class",
+        "append-text", "insert-tag", "del-child", "clear-children", "rename", "flip-ws", "child-attr-pop"]
+HIST_TREES = [
+    E("div", True, [T("a"), E("span", False, [T("i")], [["class", "k"], ["title", "t"]])], [["id", "i"], ["class", "c"]]),
+    E("span", False, [], [["class", "only"]]),
+    E("p", True, [T("x<y")], [["data-x", "1"], ["title", "q\"r"], ["lang", "en"]]),
+    E("img", False, [], [["src", "a.png"], ["alt", "A"]]),
+    E("div", True, [E("div", True, [E("b", False, [T("deep")], [["id", "d"]])], [["class", "m n"]])], [["class", "o"]]),
+]
+
+
+def mutate_both(x, spec, m):
+    """apply mutation m to the real tag x and to its spec; returns the new spec (or None if n/a)."""
+    import copy as _c
+    from htmltools import Tag
+    k, name, ws, attrs, kids = _c.deepcopy(spec)
+    if m == "attr-pop":
+        if not attrs:
+            return None
+        x.attrs.pop(attrs[-1][0])
+        attrs = attrs[:-1]
+    elif m == "attr-clear":
+        x.attrs.clear()
+        attrs = []
+    elif m == "attr-del":
+        if not attrs:
+            return None
+        del x.attrs[attrs[0][0]]
+        attrs = attrs[1:]
+    elif m == "attr-set":
+        x.attrs["data-new"] = "n&w"
+        attrs = [a for a in attrs if a[0] != "data-new"] + [["data-new", "n&w"]]
+    elif m == "attr-update":
+        if not attrs:
+            return None
+        x.attrs.update({attrs[0][0]: "replaced"})
+        attrs = [[attrs[0][0], "replaced"]] + attrs[1:]
+    elif m == "add_class":
+        x.add_class("added")
+        cur = next((a for a in attrs if a[0] == "class"), None)
+        if cur:
+            cur[1] = cur[1] + " added"
+        else:
+            attrs = attrs + [["class", "added"]]
+    elif m == "remove_last_class":
+        cur = next((a for a in attrs if a[0] == "class"), None)
+        if not cur or " " in cur[1]:
+            return None
+        x.remove_class(cur[1])
+        attrs = [a for a in attrs if a[0] != "class"]
+    elif m == "append-text":
+        x.append("app&")
+        kids = kids + [T("app&")]
+    elif m == "insert-tag":
+        x.insert(0, Tag("i", "ins", _add_ws=False))
+        kids = [E("i", False, [T("ins")])] + kids
+    elif m == "del-child":
+        if not kids:
+            return None
+        del x.children[0]
+        kids = kids[1:]
+    elif m == "clear-children":
+        x.children.clear()
+        kids = []
+    elif m == "rename":
+        x.name = "section"
+        name = "section"
+    elif m == "flip-ws":
+        x.add_ws = not x.add_ws
+        ws = not ws
+    elif m == "child-attr-pop":
+        idx = next((i for i, c in enumerate(kids) if c[0] == "E" and c[3]), None)
+        if idx is None:
+            return None
+        x.children[idx].attrs.pop(kids[idx][3][-1][0])
+        kids[idx][3] = kids[idx][3][:-1]
+    return [k, name, ws, attrs, kids]
+
+
+def fn_history(case):
+    """render, mutate through the public API, render the SAME object again: it must parse to the
+    mutated tree (exposes anything cached on the objects by an earlier render)."""
+    ti, seq = case
+    spec = HIST_TREES[ti]
+    x = build(spec)
+    viols = []
+    n = 0
+    check_parse(spec, x.get_html_string(), viols, "initial")
+    x.get_html_string(2, "\r\n")
+    for m in seq:
+        new = mutate_both(x, spec, m)
+        if new is None:
+            continue
+        spec = new
+        n += 1
+        for cfg in ((0, "\n"), (1, "\r\n")):
+            check_parse(spec, x.get_html_string(*cfg), viols, f"after {seq} {cfg}")
+        if viols:
+            viols = [(f"history:{m}:" + v[0], v[1], v[2]) for v in viols]
+            break
+    return (n >= 1, None, viols, 2 * n + 2)
+
+
 def plan(tier):
     configs = CONFIGS_QUICK if tier == "quick" else CONFIGS_THOROUGH
     fn = make_fn(configs)
@@ -214,10 +318,12 @@ def plan(tier):
     Vi = lambda k: E("br", False, k)                   # noqa: E731
     C = lambda k: E("my-el", True, k)                  # noqa: E731
     BA = lambda k: E("div", True, k, ATTRSETS[2])      # noqa: E731
-    IA = lambda k: E("a", False, k, [["href", "?a=1&b=2"], ["hidden", True]])   # noqa: E731
-    L_full = [T("a"), T("<&>\"'"), ["N", 7], ["N", 2.5], T(" s "), T(""), T("l1\nl2 \n l3")]
+    IA = lambda k: E("a", False, k, [["href", "p q/é?a=1&b=2#f \"x\""], ["hidden", True]])   # noqa: E731
+    IM = lambda k: E("img", False, k, [["src", "a b.png"], ["alt", "x"]])                    # noqa: E731
+    L_full = [T("a"), T("<&>\"'"), ["N", 7], ["N", 2.5], T(" s "), T(""), T("l1\nl2 \n l3"),
+              T("&lt;b&gt; &amp;amp; &#65; &nbsp;")]
     L_red = [T("a"), T("<&>\"'"), ["N", 7]]
-    t1 = trees(Const(L_full), [B, I_, Vb, Vi, C, BA, IA], 1, 3 if tier == "quick" else 4)
+    t1 = trees(Const(L_full), [B, I_, Vb, Vi, C, BA, IA, IM], 1, 3 if tier == "quick" else 4)
     out.append(dict(kind="space", name="wide-shallow", space=only_elements(t1), fn=fn,
                     note="depth<=1, fan-out<=3 (quick) / 4, full alphabet incl. attribute-bearing kinds"))
     if tier == "quick":
@@ -237,6 +343,10 @@ def plan(tier):
         t4 = trees(Const([T("a")]), [B, I_], 4, [2, 2, 1, 1])
         out.append(dict(kind="space", name="deep-d4", space=only_elements(t4), fn=fn,
                         note="depth<=4 fan-out (2,2,1,1)"))
+    out.append(dict(kind="space", name="mutation-histories", fn=fn_history,
+                    space=Prod(Const(list(range(len(HIST_TREES)))), Seq(Const(MUTS), 1, 2 if tier == "quick" else 3)),
+                    note=f"{len(HIST_TREES)} attribute-bearing trees: render, then every sequence of <= 2 (quick) / 3 of "
+                         f"{len(MUTS)} public-API mutations, re-rendering the same object after each"))
     # raw-text elements with text-only children free of '</'
     S = [E(n, ws, kids) for n in ("script", "style") for ws in (True, False)
          for kids in ([], [T("a<b && c>d")], [T("x"), T(" y "), ["N", 3]], [T("\n p \n")])]
